@@ -1,4 +1,4 @@
-//@ assume: global::difficulty_data_to_vector is abstract: it returns the DMA_WINDOW + 1 = 61 newest difficulty records, oldest first, padded before genesis (sp_window); ASSUMED about it (true for validated headers, whose timestamps strictly increase, and for the padding, which steps backwards): the newest timestamp is not below the oldest. secondary_pow_scaling is abstract (its damp/clamp core is decided by Kani in C04/consensus)
+//@ assume: global::difficulty_data_to_vector is abstract HERE (its own contract -- exactly 61 records, the padding rule -- is decided in C04/difficulty_window): it returns the DMA_WINDOW + 1 = 61 newest difficulty records, oldest first, padded before genesis (sp_window); ASSUMED about it (true for validated headers, whose timestamps strictly increase, and for the padding, which steps backwards): the newest timestamp is not below the oldest. secondary_pow_scaling is abstract (its damp/clamp core is decided by Kani in C04/consensus)
 //@ assume: T6: the generic `T: IntoIterator` signature => the abstract DiffCursor; `diff_data.iter().skip(1).map(|dd| dd.difficulty.to_num()).sum()` => sum_difficulties(&diff_data, 1), ASSUMED to return the mathematical sum of the difficulties from index 1 on (precondition: it fits in u64 -- the real `.sum()` would panic in a debug build / wrap in release); `max` / `min` at u64 => verified local functions; `max(num, 1)` in Difficulty::from_num likewise
 //@ assume: ranges (preconditions): the window's timestamp span + 7200 fits in u64; the difficulty sum times 60 fits in u64 (sum < 2^58)
 //@ assume: decided here (C04, the pre-HF4 difficulty rule still used to validate the first 1 048 320 mainnet headers): next_dma_difficulty is total on that domain and returns EXACTLY max(3, floor(S * 60 / T)) where S is the sum of the last 60 difficulties and T = clamp(damp(span, 3600, 3), 3600, 2) with damp(a, g, f) = floor((a + (f-1) g) / f) and clamp(a, g, c) = max(floor(g/c), min(a, g c)) -- the real damp and clamp are verified verbatim -- so 1800 <= T <= 7200 whatever the timestamps, i.e. the next difficulty lies between S/120 and S/30; the secondary scaling returned is secondary_pow_scaling(height, window without its first record)
